@@ -100,3 +100,26 @@ package results
 //@   at call GetBestMatchReferFile#2 before assert[package-init-fuzzy-match-uses-the-normalised-path] arg0 == curFile && arg1 == concat(strNewFile, "/init.lua") && !suffixFlag
 //@   at call InsertError#* before assert[missing-file-diagnostic-only-in-the-first-pass] arg1 == common.CheckErrorNoFile && f.checkTerm == CheckTermFirst && arg3 == referInfo.Loc
 //@ end
+
+// ---- C17: the single choke point through which every diagnostic is recorded ----
+// InsertRelateError records the diagnostic unless the configuration ignores it (IsIgnoreErrorFile, whose decision
+// table is proved in package common) or the pass is not a diagnostic pass; what is recorded is exactly what was given.
+//@ func (*FileResult).InsertRelateError
+//@   props C17
+//@   ensures[master-switch-off-records-nothing] !old(common.GConfig.showWarnFlag) ==> len(f.CheckErrVec) == old(len(f.CheckErrVec))
+//@   ensures[ignored-type-records-nothing] old(has(common.GConfig.IgnoreErrorTypeMap, errType)) ==> len(f.CheckErrVec) == old(len(f.CheckErrVec))
+//@   ensures[non-diagnostic-pass-records-nothing] old(f.checkTerm) != CheckTermFirst && old(f.checkTerm) != CheckTermSecond && old(f.checkTerm) != CheckTermThird
+//@        ==> len(f.CheckErrVec) == old(len(f.CheckErrVec))
+//@   ensures[enabled-type-without-file-rules-is-recorded-as-given] (old(f.checkTerm) == CheckTermFirst || old(f.checkTerm) == CheckTermSecond || old(f.checkTerm) == CheckTermThird)
+//@        && old(common.GConfig.showWarnFlag) && !old(has(common.GConfig.IgnoreErrorTypeMap, errType))
+//@        && old(len(common.GConfig.IgnoreErrorFloderVec)) == 0 && old(len(common.GConfig.IgnoreErrorFileVec)) == 0 && old(len(common.GConfig.IgnoreFileErrTypesMap)) == 0
+//@        ==> len(f.CheckErrVec) == old(len(f.CheckErrVec)) + 1 && f.CheckErrVec[len(f.CheckErrVec) - 1].ErrType == errType
+//@            && f.CheckErrVec[len(f.CheckErrVec) - 1].Loc == loc && f.CheckErrVec[len(f.CheckErrVec) - 1].ErrStr == errStr
+//@   ensures[at-most-one-record] len(f.CheckErrVec) == old(len(f.CheckErrVec)) || len(f.CheckErrVec) == old(len(f.CheckErrVec)) + 1
+//@   at call IsIgnoreErrorFile#0 before assert[decision-is-about-this-file-and-type] arg0 == common.GConfig && arg1 == f.Name && arg2 == errType
+//@ end
+//@ func (*FileResult).InsertError
+//@   props C17
+//@   at call InsertRelateError#0 before assert[plain-error-goes-through-the-choke-point-unchanged] arg0 == f && arg1 == errType && arg2 == errStr && arg3 == loc
+//@   ensures[goes-through-the-choke-point] hits("InsertRelateError#0") == 1
+//@ end
